@@ -147,6 +147,7 @@ class Expect:
         self.nlinks = 0
         self.either = False
         self.links_after_either = False
+        self.link_either = False  # a connection whose acceptance the property does not fix
         self.done = False
         self.unknown = False  # the model cannot follow a successful outcome (e.g. unknown traced tail)
         self.new_nodes = []  # model node indexes created by a successful call, in adoption order
@@ -158,11 +159,17 @@ class Expect:
         if self.done or self.unknown:
             return False
         verdict, reason = self.m.judge(links, train_w)
-        if verdict == 'legal':
-            self.m.apply(links)
-            self.nlinks += len(links)
+        if verdict in ('legal', 'either'):
             if self.either:
                 self.links_after_either = True
+            if verdict == 'either':  # may be refused or accepted; if it is refused nothing of it may stay
+                self.either = True
+                self.link_either = True
+                self.reason = self.reason or reason
+                if self.nlinks:
+                    self.links_after_either = True  # a refusal would leave an undetermined mix
+            self.m.apply(links)
+            self.nlinks += len(links)
             return True
         self.done = True
         self.verdict, self.reason = verdict, reason
